@@ -44,7 +44,7 @@ PROPS = {
     "C16": dict(fams=[("consops", 1200, "fast")], mult=1, special="depth"),
     "C17": dict(fams=[("malformed", 3000, "fast"), ("text", 600, "fast"), ("print", 800, "fast"), ("printall", 1, "fast"), ("escapes", 1, "fast"), ("chars", 1, "fast")], mult=10),
     "C18": dict(fams=[("deser", 3000, "fast")], mult=20),
-    "C19": dict(fams=[("prefix", 250, "fast"), ("malformed", 2000, "fast"), ("escapes", 1, "fast"), ("prefix", 80, "nofast"), ("serde", 200, "fast")], mult=10),
+    "C19": dict(fams=[("prefix", 250, "fast"), ("malformed", 2000, "fast"), ("escapes", 1, "fast"), ("prefix", 80, "nofast"), ("serde", 200, "fast"), ("faults", 60, "fast")], mult=10),
     "C20": dict(fams=[("prims", 2500, "fast"), ("values", 800, "fast")], mult=20),
 }
 
